@@ -26,7 +26,17 @@ type c04Slot struct {
 }
 
 type c04Op struct {
-	Op   string         `json:"op"` // announce | announce+data | data | unknown | peerget
+	Op   string         `json:"op"` // announce | announce+data | data | unknown | peerget | mixed
+	Slot int            `json:"slot"`
+	Tpl  *wire.Template `json:"tpl,omitempty"`
+	Recs []wire.Record  `json:"recs,omitempty"`
+	Pad  int            `json:"pad,omitempty"`
+	// mixed: one message of the slot's exporter holding several sets in this order; a set with Tpl
+	// (re-)announces that slot's template, a set without carries data under the template in force at that point
+	Sets []c04MixedSet `json:"sets,omitempty"`
+}
+
+type c04MixedSet struct {
 	Slot int            `json:"slot"`
 	Tpl  *wire.Template `json:"tpl,omitempty"`
 	Recs []wire.Record  `json:"recs,omitempty"`
@@ -41,7 +51,7 @@ type c04Case struct {
 
 const c04Rule = "case = protocol (ipfix | nf9) + 2..6 (exporter address, template id) slots (IPv4 4-byte, IPv4-mapped, IPv6; ids shared across exporters; adversarial pairs that collide on the cache's " +
 	"full 32-bit FNV-1 hash or share a shard, found by searching ~1.5M keys) + 2..30 operations: announce (alone or with data in the same message), re-announce with a different definition " +
-	"(same record length with other elements, or a fresh template), data under the model's current template, data for a never-announced slot, peer Get (ipfix); " +
+	"(same record length with other elements, or a fresh template), data under the model's current template, data for a never-announced slot, peer Get (ipfix), and messages mixing data sets and (re-)announcements of several ids of one exporter in any order; " +
 	"invariant after every step = decode equals the reference expectation under the model's template for exactly that slot, unannounced slots give an 'unknown template' error and no records, peer Get returns the model's template or 'not available'; " +
 	"non-trivial = a re-announcement followed by data, or >= 2 exporters using one id with different definitions, or a colliding pair in use; distinct by hash"
 
@@ -176,6 +186,40 @@ func genC04(t *rapid.T, proto string, env *wire.GenEnv) c04Case {
 		cur := model[slot]
 		kind := rapid.IntRange(0, 9).Draw(t, "opkind")
 		switch {
+		case kind == 8:
+			// one message: data / re-announcement / data ... for the slots of this exporter
+			var same []int
+			for j := range c.Slots {
+				if string(c.Slots[j].Addr) == string(c.Slots[slot].Addr) {
+					same = append(same, j)
+				}
+			}
+			op := c04Op{Op: "mixed", Slot: slot}
+			local := map[int]*wire.Template{}
+			for _, j := range same {
+				local[j] = model[j]
+			}
+			ns := rapid.IntRange(2, 5).Draw(t, "mixedsets")
+			for k := 0; k < ns; k++ {
+				j := same[rapid.IntRange(0, len(same)-1).Draw(t, "mixedslot")]
+				if local[j] == nil || rapid.IntRange(0, 2).Draw(t, "mixedannounce") == 0 {
+					var tp wire.Template
+					if local[j] != nil && rapid.Bool().Draw(t, "mixedsamelen") {
+						tp = redefineSameLength(t, env, local[j])
+					} else {
+						tp = env.GenTemplate(t, c.Slots[j].ID)
+					}
+					op.Sets = append(op.Sets, c04MixedSet{Slot: j, Tpl: &tp})
+					local[j] = &tp
+				} else {
+					ds := env.GenDataSet(t, local[j], 3)
+					op.Sets = append(op.Sets, c04MixedSet{Slot: j, Recs: ds.Recs, Pad: ds.Pad})
+				}
+			}
+			for _, j := range same {
+				model[j] = local[j]
+			}
+			c.Ops = append(c.Ops, op)
 		case cur == nil && kind <= 1:
 			c.Ops = append(c.Ops, c04Op{Op: "unknown", Slot: slot})
 		case kind == 9 && proto == "ipfix":
@@ -262,6 +306,7 @@ func runC04x(c *c04Case) (v verdict, sig string, err error, cache *flowCache, mo
 	model = map[int]*wire.Template{}
 	reannounced := map[int]bool{}
 	dataAfterRe := false
+	inMsgRe := false // data, re-announcement, data of one id inside one message
 	seq := uint32(1)
 	hdr := func() wire.Msg {
 		seq++
@@ -304,6 +349,59 @@ func runC04x(c *c04Case) (v verdict, sig string, err error, cache *flowCache, mo
 				reannounced[op.Slot] = true
 			}
 			model[op.Slot] = op.Tpl
+		case "mixed":
+			m := hdr()
+			var want []wire.ExpRecord
+			staleRisk := false
+			seenData := map[int]bool{}
+			for _, ms := range op.Sets {
+				if ms.Slot < 0 || ms.Slot >= len(c.Slots) || string(c.Slots[ms.Slot].Addr) != string(sl.Addr) {
+					return v, "", fmt.Errorf("bad case: mixed set for another exporter"), cache, model
+				}
+				if ms.Tpl != nil {
+					if ms.Tpl.ID != c.Slots[ms.Slot].ID {
+						return v, "", fmt.Errorf("bad case: mixed announce with a foreign id"), cache, model
+					}
+					kind := "tpl"
+					if ms.Tpl.Options {
+						kind = "opt"
+					}
+					m.Sets = append(m.Sets, wire.Set{Kind: kind, Tpls: []wire.Template{*ms.Tpl}})
+					if model[ms.Slot] != nil {
+						reannounced[ms.Slot] = true
+					}
+					if seenData[ms.Slot] {
+						staleRisk = true
+					}
+					model[ms.Slot] = ms.Tpl
+					continue
+				}
+				tp := model[ms.Slot]
+				if tp == nil {
+					return v, "", fmt.Errorf("bad case: mixed data before announce"), cache, model
+				}
+				m.Sets = append(m.Sets, wire.Set{Kind: "data", Tpl: tp, Recs: ms.Recs, Pad: ms.Pad})
+				for r := range ms.Recs {
+					want = append(want, wire.ExpectRecord(tp, &ms.Recs[r]))
+				}
+				if reannounced[ms.Slot] {
+					dataAfterRe = true
+				}
+				if staleRisk && seenData[ms.Slot] {
+					inMsgRe = true
+				}
+				seenData[ms.Slot] = true
+			}
+			res, perr := cache.decodeFlow(addr, m.Bytes())
+			if perr != nil {
+				return v, "panic", step("%v", perr), cache, model
+			}
+			if res.Nil || res.Err != nil {
+				return v, "mixed-error", step("message mixing announcements and data failed: nil=%v err=%v", res.Nil, res.Err), cache, model
+			}
+			if d := wire.CompareRecords(res.Recs, want); d != "" {
+				return v, "wrong-template", step("a data set was not decoded with the template most recently announced (earlier in the same message or before): %s", d), cache, model
+			}
 		case "data":
 			tp := model[op.Slot]
 			if tp == nil {
@@ -404,11 +502,13 @@ func runC04x(c *c04Case) (v verdict, sig string, err error, cache *flowCache, mo
 	v.label(full, "full-hash-collision-pair-in-use")
 	v.label(shard, "same-shard-pair-in-use")
 	v.label(dataAfterRe, "data-after-reannouncement")
+	v.label(inMsgRe, "data-reannounce-data-in-one-message")
 	v.label(sharedID, "one-id-different-definitions")
 	for _, op := range c.Ops {
 		v.label(op.Op == "unknown", "unknown-data")
 		v.label(op.Op == "peerget", "peer-get")
 		v.label(op.Op == "announce+data", "announce-with-data")
+		v.label(op.Op == "mixed", "mixed-message")
 	}
 	v.NT = dataAfterRe || sharedID || full
 	return v, "", nil, cache, model
